@@ -232,4 +232,7 @@ def replay(record: dict, *, nt=None, stop_at_first=True, collect_counts=False):
                 log.violations.append((idx, v))
             if stop_at_first:
                 break
+    from .ops_store import cleanup_world
+
+    cleanup_world(w)
     return log, w
